@@ -1,2 +1,6 @@
-#[cfg(any(not(verif_select), verif_gc))] #[path = "/verif/harness/ntp_proto/gc_probe_bloom.rs"] pub(crate) mod gc;
-#[cfg(any(not(verif_select), verif_gk))] #[path = "/verif/harness/ntp_proto/gk_probe_bloom.rs"] pub(crate) mod gk;
+#[cfg(any(not(verif_select), verif_gc))]
+#[path = "/verif/harness/ntp_proto/gc_probe_bloom.rs"]
+pub(crate) mod gc;
+#[cfg(any(not(verif_select), verif_gk))]
+#[path = "/verif/harness/ntp_proto/gk_probe_bloom.rs"]
+pub(crate) mod gk;
